@@ -226,9 +226,13 @@ pub fn run_poison(p: &Poison) {
 
 /// Repeat a small operation `count` times (results ignored).
 pub fn run_soak(op: SoakOp, count: u32) {
-    let mut w = VecWriter::new();
-    control(ordinary_avps(2)).write(&mut w);
-    let ctl = w.data.clone();
+    // (the library may refuse even this, on a tree that is broken)
+    let ctl = guard(|| {
+        let mut w = VecWriter::new();
+        control(ordinary_avps(2)).write(&mut w);
+        w.data
+    })
+    .unwrap_or_else(|_| vec![0x13, 0x20, 0, 20, 0, 7, 0, 0, 0, 1, 0, 2, 1, 8, 0, 0, 0, 0, 0, 1]);
     let data: Vec<u8> = vec![0x00, 0x02, 0x00, 0x01, 0x00, 0x02, 0xde, 0xad];
     let rv = types::RandomVector::from([5u8, 6, 7, 8]);
     let _ = guard(|| {
@@ -243,7 +247,7 @@ pub fn run_soak(op: SoakOp, count: u32) {
                     let _ = Message::<&[u8]>::try_read(&mut r);
                 }
                 SoakOp::Greedy => {
-                    let mut r = SliceReader::from(&ctl[12..]);
+                    let mut r = SliceReader::from(&ctl[12.min(ctl.len())..]);
                     let _ = AVP::try_read_greedy::<&[u8]>(&mut r);
                 }
                 SoakOp::EncodeControl => {
@@ -259,7 +263,7 @@ pub fn run_soak(op: SoakOp, count: u32) {
                     let _ = h.reveal(b"soak", &rv);
                 }
                 SoakOp::FailedDecode => {
-                    let mut r = SliceReader::from(&ctl[..ctl.len() - 3]);
+                    let mut r = SliceReader::from(&ctl[..ctl.len().saturating_sub(3)]);
                     let _ = Message::<&[u8]>::try_read(&mut r);
                 }
             }
